@@ -1,6 +1,6 @@
 (** Proofs about Model/RunStage.v (property C03: "... or a directory/upload
     operation failed"). *)
-From Shk Require Import Base.Prelude Model.RunStage.
+From Shk Require Import Base.Prelude Model.Verdict Model.RunStage.
 Open Scope list_scope.
 
 Lemma is_interrupted_app a b : is_interrupted (a ++ b) = is_interrupted a || is_interrupted b.
@@ -141,4 +141,19 @@ Proof.
       cbn [app is_nil andb] in H;
       match type of H with context [if ?u then [DRmAll] else []] => destruct u | _ => idtac end;
       repeat (cbn in H; match type of H with _ \/ _ => destruct H as [H|H]; [discriminate|] | False => exact H end).
+Qed.
+
+(** ** The two halves together: conduct's funnel (Model/Verdict.v) feeds the end
+    of [run].  [lift_err] forgets which cause an element is, keeping only
+    whether the play was interrupted by a signal. *)
+Definition lift_err (intr : bool) (e : err) : rerr := map (fun _ => RPlay intr) e.
+
+Lemma whole_exit_iff f fails intr e :
+  run_exit_nonzero f fails (lift_err intr e) = true <->
+  exit_nonzero e = true \/
+  exists d, In d (snd (run_stage f fails (lift_err intr e))) /\ fails d = true.
+Proof.
+  rewrite run_exit_iff. split; (intros [H|H]; [left | right; exact H]).
+  - destruct e; [exfalso; apply H; reflexivity | reflexivity].
+  - destruct e; [discriminate | discriminate].
 Qed.
